@@ -38,6 +38,7 @@ BaseB == <<
             <<R("ASSIGN"), B("FU1"), R("0.5"), SL>>,
             <<R("UNITS"), B("WUX"), R("'SM3/DAY'"), SL>>, <<SL>>,
   U("MULTREGT"), <<I(1), I(2), D(5), S("XY"), St(2), SL>>, <<I(2), I(3), D(4), SL>>, <<SL>>,
+  U("WLIST"), <<S("*L1"), B("NEW"), S("P1"), S("P-2"), SL>>, <<S("*L2"), St(3), SL>>, <<S("*L3"), B("ADD"), St(1), S("P1"), SL>>, <<SL>>,
   U("TSTEP"), <<I(1), I(1), I(1), D(9), SL>>
 >>
 \* a deck whose keyword sizes come from defaulted / absent dimension keywords
